@@ -90,6 +90,12 @@ class ModuleVal:
         self.name, self.attrs = name, attrs
 
 
+class SuperProxy:
+    """value of `super()` inside a method of class `cls_name` called on `obj`"""
+    def __init__(self, obj, cls_name):
+        self.obj, self.cls_name = obj, cls_name
+
+
 class StarredSeq:
     """`*seq` argument pack of symbolic length"""
     def __init__(self, arr):
@@ -605,6 +611,8 @@ class Interp:
             return v.n
         if isinstance(v, SegList):
             return self.seg_len(v)
+        if isinstance(v, Opq):
+            return z3.Function('len!U', U, z3.IntSort())(v.t)       # length of an opaque sequence: uninterpreted
         if isinstance(v, SObj):
             if '__len__' in v.attrs:
                 return self.call(v.attrs['__len__'], [], {})
@@ -639,6 +647,8 @@ class Interp:
             xz = self.flat_elem(x, cont.kind)
             eq = z3.And(*[z3.Select(l, k) == e for l, e in zip(cont.leaves, xz)])
             return z3.Exists([k], z3.And(0 <= k, k < to_z3(cont.n), eq))
+        if isinstance(cont, SObj) and '__contains__' in cont.attrs:
+            return self.call(cont.attrs['__contains__'], [x], {})
         if isinstance(cont, SObj):
             m = self.find_method_obj(cont, '__contains__')
             if m is not None:
@@ -790,6 +800,8 @@ class Interp:
                     return obj[idx]
                 except IndexError:
                     raise PyRaise('IndexError')
+        if isinstance(obj, Opq):
+            return Opq(base='item')       # element / slice of an opaque array: an unspecified opaque value
         raise Unsupported(f'subscript of {type(obj).__name__}')
 
     def ite(self, c, a, b):
@@ -1044,11 +1056,29 @@ class Interp:
         return FuncVal(m2, fn, self_obj=obj, cls=cd.name)
 
     def getattr(self, obj, name):
+        if isinstance(obj, SuperProxy):
+            target = obj.obj
+            if isinstance(target, ClassVal):
+                chain = source.mro(target.mod, target.name)
+            elif isinstance(target, SObj) and target.mod is not None:
+                chain = source.mro(target.mod, target.cls)
+            else:
+                raise Unsupported('super() on an unmodelled object')
+            names = [cd.name for _, cd in chain]
+            if obj.cls_name not in names:
+                raise Unsupported('super(): current class not in the MRO of the object')
+            for m2, cd in chain[names.index(obj.cls_name) + 1:]:
+                for n in cd.body:
+                    if isinstance(n, ast.FunctionDef) and n.name == name:
+                        return FuncVal(m2, n, self_obj=target, cls=cd.name)
+            raise PyRaise('AttributeError', (name,))
         if isinstance(obj, SObj):
             if name in obj.attrs:
                 return obj.attrs[name]
             if name == '__class__':
                 return ClassVal(*source.find_class(obj.mod, obj.cls))
+            if name == '__dict__':
+                return obj.attrs          # the instance dictionary itself (live)
             if obj.mod is not None:
                 r = source.find_method(obj.mod, obj.cls, name)
                 if r is not None:
@@ -1092,6 +1122,8 @@ class Interp:
                         return self.eval_in_module(m2, n.value)
             if name == '__name__':
                 return obj.name
+            if name == '__new__':
+                return Builtin(lambda I, cls, *a, **k: SObj(cls.name, cls.mod), '__new__')
             raise PyRaise('AttributeError', (name,))
         if obj is None:
             if self.spec_mode:
